@@ -60,10 +60,13 @@ fn write_crate(dir: &PathBuf, main_rs: &str) {
     std::fs::create_dir_all(dir.join("src")).unwrap();
     std::fs::create_dir_all(dir.join(".cargo")).unwrap();
     let r = repo();
+    // one package name per job: concurrent jobs share the target directory (dependencies are built once) and
+    // must not overwrite each other's binary
+    let pid = std::process::id();
     std::fs::write(
         dir.join("Cargo.toml"),
         format!(
-            "[package]\nname = \"c20case\"\nversion = \"0.1.0\"\nedition = \"2024\"\n\n[dependencies]\nspindalis = {{ path = \"{r}/spindalis\" }}\nspindalis_core = {{ path = \"{r}/spindalis_core\" }}\nspindalis_macros = {{ path = \"{r}/spindalis_macros\" }}\n\n[workspace]\n"
+            "[package]\nname = \"c20case{pid}\"\nversion = \"0.1.0\"\nedition = \"2024\"\n\n[dependencies]\nspindalis = {{ path = \"{r}/spindalis\" }}\nspindalis_core = {{ path = \"{r}/spindalis_core\" }}\nspindalis_macros = {{ path = \"{r}/spindalis_macros\" }}\n\n[workspace]\n"
         ),
     )
     .unwrap();
@@ -180,7 +183,7 @@ pub fn run_batch(lines: &[String]) -> Vec<Obs> {
         write_crate(&dir, &src);
         let (built, json) = cargo(&dir, &target, &["build"]);
         if built {
-            let out = Command::new(target.join("debug").join("c20case")).output().expect("run c20case");
+            let out = Command::new(target.join("debug").join(format!("c20case{}", std::process::id()))).output().expect("run c20case");
             for l in String::from_utf8_lossy(&out.stdout).lines() {
                 let mut it = l.split('\t');
                 if let (Some(k), Some(v), Some(t)) = (it.next(), it.next(), it.next()) {
@@ -236,6 +239,18 @@ pub fn run_batch(lines: &[String]) -> Vec<Obs> {
         }
     }
     let _ = std::fs::remove_dir_all(&job);
+    // this job's own artefacts in the shared target directory
+    let mine = format!("c20case{}", std::process::id());
+    for sub in ["debug", "debug/deps", "debug/incremental", "debug/.fingerprint"] {
+        if let Ok(rd) = std::fs::read_dir(target.join(sub)) {
+            for e in rd.flatten() {
+                if e.file_name().to_string_lossy().starts_with(&mine) {
+                    let p = e.path();
+                    let _ = if p.is_dir() { std::fs::remove_dir_all(&p) } else { std::fs::remove_file(&p) };
+                }
+            }
+        }
+    }
 
     // ---- observations and verdicts
     let mut out = Vec::new();
